@@ -218,6 +218,31 @@ func nativeReplayOpt(cases []*vpCase, race bool) (map[string]*vpResult, error) {
 	return res, nil
 }
 
+// nativeObserved records every assertion that failed in a native replay (labels that only the
+// engine's write monitor can decide hold natively by construction and are skipped).
+func nativeObserved(chk *Check, c *vpCase, r *vpResult, confirmed map[string][]violation) {
+	if r == nil || r.AssumeFailed || r.Exhausted || r.NameMismatch != "" || chk.Race {
+		return
+	}
+	for _, e := range r.Events {
+		if strings.HasPrefix(e, "A:") && strings.HasSuffix(e, ":false") {
+			lab := strings.TrimSuffix(strings.TrimPrefix(e, "A:"), ":false")
+			v := violation{Harness: c.Harness, Label: lab, Case: c, Kind: "assert", Detail: "observed in the native replay (the engine's own path differs here: its model of the code, e.g. of aliasing through package unsafe, is not exact for this input)"}
+			key := v.Harness + "|" + v.Label
+			dup := false
+			for _, old := range confirmed[key] {
+				if old.Case.ID == c.ID {
+					dup = true
+				}
+			}
+			if !dup {
+				confirmed[key] = append(confirmed[key], v)
+			}
+			return
+		}
+	}
+}
+
 func firstLines(s string, n int) string {
 	ls := strings.Split(s, "\n")
 	if len(ls) > n {
@@ -315,7 +340,7 @@ func runHarness(p *interp.Program, h HarnessRun, tier string, workers int, out *
 		// wall-clock budget per harness run: exceeding it truncates the run (reported as INCONCLUSIVE, never as success)
 		cfg.Timeout = 15 * time.Minute
 		if tier == "thorough" {
-			cfg.Timeout = 3 * time.Hour
+			cfg.Timeout = 75 * time.Minute
 		}
 	}
 	if h.NoReinit {
@@ -714,6 +739,7 @@ func cmdCheck(args []string) int {
 				confirmed[key] = append(confirmed[key], v)
 			} else {
 				spurious++
+				nativeObserved(chk, v.Case, r, confirmed)
 				why := "no result"
 				if r != nil {
 					why = fmt.Sprintf("native events=%v panic=%q assumeFailed=%v exhausted=%v %s", r.Events, r.Panic, r.AssumeFailed, r.Exhausted, r.NameMismatch)
@@ -734,6 +760,12 @@ func cmdCheck(args []string) int {
 				}
 			} else {
 				mismatched++
+				// The native run of a sampled path fails an assertion: the real code violates the
+				// property on this concrete input, whatever the engine's own path did (typically memory
+				// aliasing through package unsafe, which the engine's immutable strings do not model,
+				// has sent the engine down another path). It reproduces natively by construction, so it
+				// is reported - as found by the native replay of a sampled path, not by the solver.
+				nativeObserved(chk, c, r, confirmed)
 				if len(mismatchNotes) < 5 {
 					mismatchNotes = append(mismatchNotes, fmt.Sprintf("%s: symbolic %v vs native %v (panic=%q assumeFailed=%v exhausted=%v %s) input=%v", c.ID, c.Expected, r.Events, r.Panic, r.AssumeFailed, r.Exhausted, r.NameMismatch, c.Values))
 				}
